@@ -290,7 +290,7 @@ def instruction_lemma(ctx, eng, ce, b, op, cb=None, haltbug=False):
     eng.obligs = []
     script = [op] if cb is None else [0xCB, cb]
     finals = run_to_boundary(ctx, eng, b, st, script)
-    out = {"regs": [], "flags": [], "mem": [], "frame": [], "cycles": [], "accesses": [], "flow": [], "nopanic": [], "boundary": []}
+    out = {"regs": [], "flags": [], "mem": [], "frame": [], "cycles": [], "accesses": [], "flow": [], "nopanic": [], "boundary": [], "oambug": []}
     if not haltbug:
         out["boundary"].append((boundary_independent(ctx, eng, b, pre_state, script), pre_state))
     name = opname(op, cb)
@@ -359,6 +359,18 @@ def instruction_lemma(ctx, eng, ce, b, op, cb=None, haltbug=False):
                         accv.append(e[1] != wv[2])
                 out["mem"].append((z3.And(guard, z3.Or(*memv)) if memv else z3.BoolVal(False), s))
                 out["accesses"].append((z3.And(guard, z3.Or(*accv)) if accv else z3.BoolVal(False), s))
+            # order inside a machine cycle: the OAM-bug bookkeeping (oam.Corrupt) is applied exactly once per executed cycle and
+            # after that cycle's own bus accesses and triggers, so OAM sees an access in the cycle it is made in
+            def _cyc(e):
+                return e[3] if e[0] in ("R", "W") else (e[2] if e[0] == "T" else e[1])
+            evs_all = s.trace[len(pre_state.trace):]
+            ok_order = True
+            for c in range(1, n + 1):
+                es = [e for e in evs_all if _cyc(e) == c]
+                ks = [i for i, e in enumerate(es) if e[0] == "K"]
+                if len(ks) != 1 or ks[0] != len(es) - 1:
+                    ok_order = False
+            out["oambug"].append((z3.And(guard, z3.BoolVal(not ok_order)), s))
             # frame: interrupt state, run state
             fr = []
             # interrupt registers: unchanged, except through the instruction's own documented stores to FFFF / FF0F
@@ -391,8 +403,8 @@ def instruction_lemma(ctx, eng, ce, b, op, cb=None, haltbug=False):
 
 
 ASPECTS = {"C11": ["flow", "nopanic"], "C04": ["frame", "flow", "boundary"], "C05": ["regs", "flags", "mem", "frame", "cycles", "flow"],
-           "C01": ["regs", "flags", "mem", "frame", "flow", "nopanic", "boundary"], "C02": ["cycles", "flow", "boundary"],
-           "C03": ["accesses", "flow", "boundary"], "C23": ["mem", "flow", "frame"]}
+           "C01": ["regs", "flags", "mem", "frame", "flow", "nopanic", "boundary"], "C02": ["cycles", "flow", "boundary", "frame"],
+           "C03": ["accesses", "flow", "boundary", "oambug"], "C23": ["mem", "flow", "frame"], "C17": ["oambug", "flow"]}
 
 
 def opcode_chunks(nchunks=32):
